@@ -1477,6 +1477,38 @@ for _pid, _rule in (("C20", "A1"), ("C12", "L6"), ("C01", "N6")):
     ok(_pid, "PowerLawSD compares and hashes by all its parameters including the cutoff type",
        _pl_eq('self.alpha, self.zeta, self.cutoff, self.cutoff_type, self.temperature'))
 
+# ------------------------------------------------------------------ time parameters tested for truthiness (C13 G8, C15 U6)
+_T_START = '            tmp_start_time = float(start_time)\n'
+for _pid, _rule in (("C13", "G8"), ("C15", "U6")):
+    brk(_pid, "Tempo rejects a start time that is 'not given' by a truthiness test (t = 0 is rejected)", _rule, _sub(
+        TE, _T_START, '            if not start_time:\n                raise ValueError("A start time is required.")\n            tmp_start_time = float(start_time)\n'))
+    ok(_pid, "Tempo parses start_time as `float(start_time) if start_time else 0.0` (zero either way)", _sub(
+        TE, _T_START, '            tmp_start_time = float(start_time) if start_time else 0.0\n'))
+    ok(_pid, "Tempo parses start_time with an explicit None test", _sub(
+        TE, _T_START, '            tmp_start_time = 0.0 if start_time is None else float(start_time)\n'))
+
+# ------------------------------------------------------------------ validated caches (C09 F5, C20 A7)
+_MFB_PROPS = '        prop_tuple_list = [\n            propagators(current_step, current_field, current_field_derivative) \\\n                for propagators, state in \\\n                    zip(self._propagators_list, current_state_list)]\n'
+_MFB_INIT = '        self._propagators_list = propagators_list\n'
+def _mfb_cache(key):
+    return _multi(
+        _sub(TB, _MFB_INIT, '        self._propagators_list = propagators_list\n        self._prop_tuple_list = None\n        self._prop_key = None\n', count=1),
+        _sub(TB, _MFB_PROPS, '        prop_key = ' + key + '\n        if prop_key != self._prop_key:\n            self._prop_tuple_list = [\n                propagators(current_step, current_field,\n                            current_field_derivative) \\\n                    for propagators in self._propagators_list]\n            self._prop_key = prop_key\n        prop_tuple_list = self._prop_tuple_list\n'))
+for _pid, _rule in (("C09", "F5"), ("C20", "A7")):
+    brk(_pid, "mean-field back end reuses the propagators while the field and its derivative are unchanged", _rule,
+        _mfb_cache('(current_field, current_field_derivative)'))
+    ok(_pid, "mean-field back end reuses the propagators while step, field and derivative are unchanged",
+       _mfb_cache('(current_step, current_field, current_field_derivative)'))
+
+# ------------------------------------------------------------------ PT-TEBD attaches process tensors like the other consumers (C10 I10, C03 M1)
+for _pid, _rule in (("C10", "I10"), ("C03", "M1")):
+    brk(_pid, "PT-TEBD connects the site's physical leg to the output leg of the process tensor", _rule, _multi(
+        _sub(TEBDB, '                pt[2] ^ self._phys_es[site]\n', '                pt[3] ^ self._phys_es[site]\n'),
+        _sub(TEBDB, '                self._phys_es[site] = pt[3]\n', '                self._phys_es[site] = pt[2]\n')))
+    ok(_pid, "PT-TEBD names the process-tensor legs before connecting them", _multi(
+        _sub(TEBDB, '                pt[2] ^ self._phys_es[site]\n', '                sys_in, sys_out = 2, 3\n                pt[sys_in] ^ self._phys_es[site]\n'),
+        _sub(TEBDB, '                self._phys_es[site] = pt[3]\n', '                self._phys_es[site] = pt[sys_out]\n')))
+
 for _pid in ["C01", "C02", "C03", "C04", "C05", "C06", "C07", "C08", "C09", "C10", "C11", "C12", "C13",
              "C14", "C15", "C16", "C17", "C18", "C19", "C20"]:
     ok(_pid, "whole package re-printed with ast.unparse (layout, comments, line numbers)", _reformat_all)
